@@ -129,3 +129,16 @@ package asp
 //@   opt precall=off
 //@   callsite reflect.DeepEqual containers_are_compared_structurally [C18]: !listlike(arg_x) && !dictlike(arg_x)
 //@   callsite pyEqual items_pairwise [C18]: called("asList") || called("asDict")
+
+// ---------------------------------------------------------------------------------------------
+// List addition yields a fresh, independent list (C16, C17)
+//
+// l + x must never write into l's backing array: a list may have spare capacity (filter(), comprehensions,
+// split()), and appending into it would make `l + a` and `l + b` share — and overwrite — each other's tail.
+// With `opt appendalias=on` an append to a slice not known to be full counts as a write to its origin.
+//@ func (pyList).Operator
+//@   property C16 C17
+//@   modifies heap
+//@   opt nopanic=off
+//@   opt panics=allowed
+//@   opt appendalias=on
